@@ -298,13 +298,15 @@ func checkPositions(c *mc.Ctx, cfg *srh.Config, obs *srh.Obs) {
 }
 
 func checkWatermarks(c *mc.Ctx, cfg *srh.Config, obs *srh.Obs) {
-	// k-th watermark per stream with the largest event timestamp preceding it in that stream
+	// per stream: positions of its watermarks and the running maximum of event timestamps
 	type wmInfo struct {
 		val     time.Time
-		maxPrev time.Time
+		maxPrev time.Time // largest event timestamp before it in this stream
 		hasPrev bool
 	}
 	var per [][]wmInfo
+	var streamMax []time.Time // largest event timestamp anywhere in the stream
+	var streamHas []bool
 	for _, st := range obs.Streams {
 		var ws []wmInfo
 		var mx time.Time
@@ -320,46 +322,59 @@ func checkWatermarks(c *mc.Ctx, cfg *srh.Config, obs *srh.Obs) {
 			}
 		}
 		per = append(per, ws)
+		streamMax = append(streamMax, mx)
+		streamHas = append(streamHas, has)
 	}
 	maxK := 0
 	for _, ws := range per {
 		maxK = max(maxK, len(ws))
 	}
+	zero := time.Time{}.Add(-time.Nanosecond)
 	var prev time.Time
-	var seq []string
 	for k := 0; k < maxK; k++ {
 		var val time.Time
-		var mx time.Time
-		has, first := false, true
+		first := true
+		// certain: events that precede watermark k in a stream that has it; possible: those plus,
+		// for a stream that has not received watermark k yet (it sits in a batch), everything it got
+		var certain, possible time.Time
+		hasCertain, hasPossible := false, false
+		bump := func(t time.Time, cur *time.Time, has *bool) {
+			if !*has || t.After(*cur) {
+				*cur, *has = t, true
+			}
+		}
 		for oi, ws := range per {
-			if k >= len(ws) {
-				continue
-			}
-			if first {
-				val, first = ws[k].val, false
-			} else if !ws[k].val.Equal(val) {
-				c.FailSig("watermark-differs-between-operators", "watermark #%d is %s at one operator and %s at operator %d", k+1, wmStr(val), wmStr(ws[k].val), oi)
-			}
-			if ws[k].hasPrev && (!has || ws[k].maxPrev.After(mx)) {
-				mx, has = ws[k].maxPrev, true
+			if k < len(ws) {
+				if first {
+					val, first = ws[k].val, false
+				} else if !ws[k].val.Equal(val) {
+					c.FailSig("watermark-differs-between-operators", "watermark #%d is %s at one operator and %s at operator %d", k+1, wmStr(val), wmStr(ws[k].val), oi)
+				}
+				if ws[k].hasPrev {
+					bump(ws[k].maxPrev, &certain, &hasCertain)
+					bump(ws[k].maxPrev, &possible, &hasPossible)
+				}
+			} else if streamHas[oi] {
+				bump(streamMax[oi], &possible, &hasPossible)
 			}
 		}
 		if k > 0 && val.Before(prev) {
 			c.FailSig("watermark-decreases", "watermark #%d (%s) is lower than watermark #%d (%s)", k+1, wmStr(val), k, wmStr(prev))
 		}
-		want := time.Time{}.Add(-time.Nanosecond)
-		if has {
-			want = mx.Add(-time.Nanosecond)
+		lo, hi := zero, zero
+		if hasCertain {
+			lo = certain.Add(-time.Nanosecond)
 		}
-		if !val.Equal(want) {
-			sig := "watermark-lags"
-			if val.After(want) {
-				sig = "watermark-reaches-forwarded-timestamp"
-			}
-			c.FailSig(sig, "watermark #%d is %s; the largest timestamp forwarded before it is %s, so it must be %s", k+1, wmStr(val), wmStr(mx), wmStr(want))
+		if hasPossible {
+			hi = possible.Add(-time.Nanosecond)
+		}
+		if val.Before(lo) {
+			c.FailSig("watermark-lags", "watermark #%d is %s although an event with timestamp %s was forwarded before it: it must be at least %s", k+1, wmStr(val), wmStr(certain), wmStr(lo))
+		}
+		if val.After(hi) {
+			c.FailSig("watermark-reaches-forwarded-timestamp", "watermark #%d is %s, but the largest timestamp forwarded so far is %s: it may be at most %s", k+1, wmStr(val), wmStr(possible), wmStr(hi))
 		}
 		prev = val
-		seq = append(seq, wmStr(val))
 	}
 	if maxK > 0 {
 		c.Note("executions_with_watermarks")
